@@ -8,14 +8,15 @@ LEVEL = 'exploration'
 RULE = (
     'Generated trees across 1-3 buses with parallel handlers that dispatch concurrently, nested awaits, forwarding of '
     'roots and children, explicit event_parent_id on some dispatches, actor dispatches right after awaits return, and '
-    'event.event_bus reads before and after forwards. Oracle vs the harness own dispatch records: parent id = event of '
+    'event.event_bus reads before and after forwards; in one scenario in twelve a handler fans out 52-75 children so that the bus refuses some '
+    '(back-pressure) and, optionally, waits and dispatches the refused objects again. Oracle vs the harness own dispatch records: parent id = event of '
     'the dispatching handler; listed exactly once among that handler result children and nowhere else; actor events '
     'have no parent; explicit parents survive; no event is its own parent/child; event_bus is the running bus. '
     'Non-trivial = >= 1 handler dispatch and (a parallel bus, or >= 2 buses, or forwarding); distinct by canonical JSON.'
 )
 ASSUMPTIONS = ['virtual time', 'harness lineage = which handler invocation called dispatch']
 
-P = Profile(par=0.4, fwd=0.5, xp=0.12, readbus=0.2, actor_ops=['disp', 'disp', 'dispany', 'sleep', 'await', 'yield', 'burst'], maxdepth=[2, 3], wild=0.25, raises=0.1, dual=0.1)
+P = Profile(fan=0.08, par=0.4, fwd=0.5, xp=0.12, readbus=0.2, actor_ops=['disp', 'disp', 'dispany', 'sleep', 'await', 'yield', 'burst'], maxdepth=[2, 3], wild=0.25, raises=0.1, dual=0.1)
 
 
 def budget(tier):
@@ -39,6 +40,10 @@ def classes(F):
         cl.append('event_bus-read')
     if any(r['k'] == 'disp' and r.get('xp') for r in F.tr):
         cl.append('explicit-parent')
+    if any(r['k'] == 'disp' and not isinstance(r['by'], str) and r.get('ok') is False for r in F.tr):
+        cl.append('in-handler-dispatch-refused')
+    if any(r['k'] == 'disp' and r.get('again') and r.get('ok') for r in F.tr):
+        cl.append('refused-child-dispatched-again')
     # two handlers of one event in flight together on a parallel bus, both dispatching
     for (b, e), _ in F.enq.items():
         if F.par.get(b):
